@@ -122,7 +122,8 @@ def x1(rep, w):
             continue
         for par in parents:
             for (k, x) in sorted(bad):
-                key = '%s -> %s / %s %s' % (par.replace('yarel::', ''), fp.replace('yarel::', ''), k, str(x).replace('yarel::', ''))
+                xs = 'an Error constructor' if str(x).startswith('yarel::error::Error::') else str(x).replace('yarel::', '')   # not by the constructor's name
+                key = '%s -> %s / %s %s' % (par.replace('yarel::', ''), fp.replace('yarel::', ''), k, xs)
                 detail = ('%s can return an Err (%s: %s) that never went through try_handle_error/unwind_stack, and %s propagates it '
                           'to Vm::run with `?`: the failure ends the run and cannot be caught by the program' % (fp, k, x, par))
                 if key in exc:
@@ -202,7 +203,7 @@ def x3(rep, w):
             # load_fiber refuses for a finished fiber
             lf = w.require_fn(VM + 'load_fiber', 'C08')
             guards = [bi for bi, t in lf.calls() if callee_name(t) == 'yarel::object::ObjFiber::has_finished']
-            fresh = ('fresh', 'yarel::error::Error::with_message') in err_sources(w, lf)
+            fresh = any(k_ == 'fresh' and str(x_).startswith('yarel::error::Error::') for (k_, x_) in err_sources(w, lf))
             r.check(bool(guards) and fresh, f.path + ' (clears all frames; load_fiber refuses finished fibers)',
                     'all frames of a fiber are cleared with its handlers left in place, and load_fiber no longer refuses to run a '
                     'finished fiber', f.loc())
